@@ -69,6 +69,7 @@ FIXED = [
  "fixed: property=C13 3a3b97c LOG / SQRT (int8 and int16 lookup tables) with a zero point that makes some dequantised input negative aborted with ValueError: math domain error (findings/FX-sqrt-table-domain-error.C13.json)",
  "fixed: property=C13 f041534 AssertionError Allocation exceeds staging limit (scheduler.use_fast_storage_for_feature_maps) when the tensors that cannot leave fast storage alone exceed a small --arena-cache-size, e.g. RESIZE / TRANSPOSE / CONCATENATION network on ethos-u55-64 with --arena-cache-size 12957 (findings/FX-staging-limit-assertion.C13.json)",
  "fixed: property=C01 6aec2b8 PAD ; AVERAGE_POOL_2D with a fused RELU-family activation (explicit padding, converted to a depthwise convolution with the zero point in the bias and OFM zero point 0): the clamp was computed without the zero point, RELU cut at code 0 instead of at the zero point (findings/FX-pad-avgpool-relu-clamp.C01.json)",
+ "fixed: property=C11 f662831 (was known finding F12) a RESIZE whose output size equals its input size was removed as Identity and its output tensor replaced by the input tensor: a network output was published under another name (findings/FX-F12-identity-resize-renames-output.C11.json)",
 ]
 EXTRA = [
  dict(id="F07-pad-then-mean", property="C13", status="known",
@@ -88,10 +89,6 @@ EXTRA = [
       signature={"oracle": "inflight_conflict"}, requires_layers=["MEAN"], max_layers=8,
       what="MEAN over the W axis only of a tensor with H>1: the depthwise operator it is lowered to is given an OFM of 1 x H while its IFM tiles describe 1 x W; the columns beyond IFM_WIDTH0 are fetched through the unused tile base (address 0) and collide with an in-flight weight DMA",
       example="findings/F11-mean-over-width-only.C04.json"),
- dict(id="F12-identity-resize-renames-output", property="C11", status="known",
-      signature={"oracle": "interface_differs", "what": "outputs"}, requires_any=["RESIZE_NEAREST_NEIGHBOR", "RESIZE_BILINEAR"],
-      what="a RESIZE whose output size equals its input size is turned into Identity and removed (tflite_graph_optimiser.fixup_resize); when its output is a network output, the output model publishes the producer's tensor (other name) in that output slot",
-      example="findings/F12-identity-resize-renames-output.C11.json"),
 ]
 def main():
     import os
